@@ -195,3 +195,283 @@ def sweep_signature(events: List[Dict[str, Any]]) -> List[Tuple]:
         elif e["kind"] == "move":
             out.append(("move", e["fn"], e["elem"], e["to"]))
     return out
+
+
+# ---------------------------------------------------------------------------------------------------------------
+# scenario evaluation of BioConsert._bio_consert, ._departure_rankings and .compute_consensus_rankings
+# ---------------------------------------------------------------------------------------------------------------
+from ..engines.abseval import Obj, Mat, Vec      # noqa: E402
+
+
+def np_funcs(mod) -> Dict[str, Any]:
+    """Hooks for the numpy names the module imports, on the abstract state (lists / Mat / Vec)."""
+    funcs: Dict[str, Any] = {}
+
+    def zeros(ev, call):
+        shape = ev.ev(call.args[0])
+        if isinstance(shape, int):
+            return [0] * shape
+        if isinstance(shape, tuple) and len(shape) == 2 and all(isinstance(x, int) for x in shape):
+            return Mat([[0] * shape[1] for _ in range(shape[0])])
+        raise Unsupported("zeros shape", call)
+
+    def array(ev, call):
+        v = ev.ev(call.args[0])
+        if isinstance(v, list):
+            return list(v)
+        if isinstance(v, Mat):
+            return Mat([list(r) for r in v.rows])
+        raise Unsupported("array of abstract", call)
+
+    def asarray(ev, call):
+        v = ev.ev(call.args[0])
+        if isinstance(v, (list, Mat)):
+            return v
+        raise Unsupported("asarray of abstract", call)
+
+    def vstack(ev, call):
+        parts = ev.ev(call.args[0])
+        rows = []
+        for p_ in parts:
+            if not isinstance(p_, Mat):
+                raise Unsupported("vstack operand", call)
+            rows.extend(p_.rows)
+        return Mat(rows)
+
+    def amin(ev, call):
+        v = ev.ev(call.args[0])
+        v = v.vals if isinstance(v, Vec) else v
+        return min(v)
+
+    def amax(ev, call):
+        v = ev.ev(call.args[0])
+        v = v.vals if isinstance(v, Vec) else v
+        return max(v)
+
+    def where(ev, call):
+        v = ev.ev(call.args[0])
+        if not isinstance(v, Vec):
+            raise Unsupported("where of non-mask", call)
+        return ([i for i, m in enumerate(v.vals) if m],)
+
+    table = {"zeros": zeros, "array": array, "asarray": asarray, "vstack": vstack, "amin": amin, "min": amin,
+             "max": amax, "amax": amax, "where": where}
+    for local, target in mod.imports.items():
+        if target.startswith("numpy."):
+            t = target.split(".", 1)[1]
+            if t in table:
+                funcs[local] = table[t]
+    return funcs
+
+
+def eval_initial_scores(proj: Project, vectors: List[List[int]], improved: Optional[List[List[int]]] = None):
+    """Abstractly evaluate BioConsert._bio_consert on the given departure vectors (same length n).
+    Returns (scores list of Lin, departure list after the call, vectors handed to the local search)."""
+    f = proj.func(MOD, "BioConsert._bio_consert")
+    mod = proj.module(MOD)
+    n = len(vectors[0])
+    flat = [x for v in vectors for x in v]
+    dst = [0.0] * len(vectors)
+    seen: List[List[int]] = []
+    funcs = np_funcs(mod)
+
+    def improve(ev, call):
+        args = [ev.ev(a) for a in call.args]
+        r = args[0]
+        k = len(seen)
+        seen.append(list(r))
+        if not (isinstance(args[1], Sym) and args[1].name == "C" and args[2] == n):
+            raise Unsupported("local search not given (vector, cost matrix, n)", call)
+        if improved is not None:
+            for i in range(n):
+                r[i] = improved[k][i]
+        return Sym("DELTA", (k,))
+    funcs["_improve_one_ranking"] = improve
+    evl = Evaluator({}, funcs)
+    evl.strict_index = True
+    try:
+        evl.call_user(f.node, [flat, Sym("C"), n, len(vectors), dst])
+    except IndexOut as exc:
+        raise AnalysisError(f"{f.qualname}: array indexed out of range at line {getattr(exc.node, 'lineno', '?')}")
+    except Unsupported as exc:
+        raise AnalysisError(f"{f.qualname}: unsupported construct at line {getattr(exc.node, 'lineno', '?')}: {exc}")
+    return dst, flat, seen
+
+
+def definitional_score(r: List[int]) -> Lin:
+    n = len(r)
+    s = Lin()
+    for a in range(n):
+        for b in range(a + 1, n):
+            s = s + C(n, a, b, rel(r[a], r[b]))
+    return s
+
+
+class Scenario:
+    """A caller dataset whose id map differs from the first-appearance order of derived datasets."""
+
+    def __init__(self, elems: List[str], mapping: Dict[str, int], rankings: List[List[set]], complete: bool):
+        self.elems = elems
+        self.mapping = mapping
+        self.rankings = rankings
+        self.complete = complete
+
+    def unified(self) -> List[List[set]]:
+        out = []
+        for r in self.rankings:
+            dom = set().union(*r) if r else set()
+            miss = set(self.elems) - dom
+            out.append([set(b) for b in r] + ([miss] if miss else []))
+        return out
+
+
+def first_appearance_ids(rankings: List[List[set]]) -> Dict[str, int]:
+    ids: Dict[str, int] = {}
+    for r in rankings:
+        for b in r:
+            for e in sorted(b):
+                ids.setdefault(e, len(ids))
+    return ids
+
+
+def bucket_matrix(rankings: List[List[set]], ids: Dict[str, int]) -> List[List[int]]:
+    """(nb_elements x nb_rankings) matrix like Dataset.get_bucket_ids, in the id space `ids`."""
+    m = [[-1] * len(rankings) for _ in range(len(ids))]
+    for j, r in enumerate(rankings):
+        for k, b in enumerate(r):
+            for e in b:
+                m[ids[e]][j] = k
+    return m
+
+
+def dataset_obj(name: str, rankings: List[List[set]], ids: Dict[str, int], complete: bool, unified=None) -> Obj:
+    o = Obj(name)
+    o.attrs = {
+        "is_complete": complete, "rankings": rankings, "nb_elements": len(ids), "nb_rankings": len(rankings),
+        "mapping_elem_id": dict(ids), "mapping_id_elem": {v: k for k, v in ids.items()},
+        "universe": set(ids),
+    }
+    o.methods = {
+        "get_bucket_ids": lambda ev, call, a, kw: Mat(bucket_matrix(rankings, ids)),
+        "get_positions": lambda ev, call, a, kw: Sym("POS_" + name),
+        "unified_rankings": lambda ev, call, a, kw: unified.attrs["rankings"] if unified is not None else rankings,
+    }
+    if unified is not None:
+        o.methods["unified_dataset"] = lambda ev, call, a, kw: unified
+    else:
+        o.methods["unified_dataset"] = lambda ev, call, a, kw: o
+    return o
+
+
+def eval_departure(proj: Project, sc: Scenario, starters: List[List[set]]):
+    """Abstractly evaluate BioConsert._departure_rankings for scenario `sc`. `starters` = consensus ranking returned
+    by each starting algorithm ([] = no starting algorithm). Returns (Mat | list result, log of starter calls)."""
+    cls = proj.cls(MOD, "BioConsert")
+    f = proj.method(cls, "_departure_rankings")
+    mod = proj.module(MOD)
+    uni_rank = sc.unified()
+    uni = dataset_obj("UNIFIED", uni_rank, first_appearance_ids(uni_rank), True)
+    ds = dataset_obj("CALLER", sc.rankings, sc.mapping, sc.complete, unified=uni)
+    calls: List[Tuple] = []
+    algs = []
+    for k, cons in enumerate(starters):
+        def ccr(ev, call, a, kw, k=k, cons=cons):
+            calls.append((k, a, kw))
+            return Obj("CONS", {"consensus_rankings": [cons]})
+        algs.append(Obj(f"ALG{k}", methods={"compute_consensus_rankings": ccr}))
+    funcs = np_funcs(mod)
+
+    def dataset_ctor(ev, call):
+        rk = ev.ev(call.args[0])
+        return dataset_obj("FRESH", rk, first_appearance_ids(rk), True)
+    funcs["Dataset"] = dataset_ctor
+
+    def bio_ctor(ev, call):
+        return Obj("BIO", {"_starting_algorithms": []}, {"_departure_rankings": lambda ev2, c2, a, kw: ev2.call_user(
+            f.node, [Obj("BIO", {"_starting_algorithms": []})] + a, kw)})
+    funcs["BioConsert"] = bio_ctor
+    helper = proj.lookup_method(cls, "_bucket_ids_with_mapping")
+    if helper is not None:
+        funcs["BioConsert._bucket_ids_with_mapping"] = lambda ev, call: ev.call_user(
+            helper.node, [ev.ev(a) for a in call.args])
+        funcs["self._bucket_ids_with_mapping"] = funcs["BioConsert._bucket_ids_with_mapping"]
+    me = Obj("SELF", {"_starting_algorithms": algs})
+    evl = Evaluator({}, funcs)
+    evl.strict_index = True
+    try:
+        ret = evl.call_user(f.node, [me, ds, Sym("SCHEME")])
+    except Unsupported as exc:
+        raise AnalysisError(f"{f.qualname}: unsupported construct at line {getattr(exc.node, 'lineno', '?')}: {exc}")
+    return ret, calls, ds
+
+
+def eval_compute(proj: Project, sc: Scenario, departure: List[List[int]], final: List[List[int]],
+                 scores: List[float], at_most_one: bool):
+    """Abstractly evaluate BioConsert.compute_consensus_rankings with the departure rows / local-search outcome given
+    by the scenario. Returns dict(consensus kwargs, calls)."""
+    cls = proj.cls(MOD, "BioConsert")
+    f = proj.method(cls, "compute_consensus_rankings")
+    mod = proj.module(MOD)
+    ds = dataset_obj("CALLER", sc.rankings, sc.mapping, sc.complete)
+    log: Dict[str, Any] = {"departure_args": None, "bio_args": None, "pcm_args": None}
+    n = len(sc.elems)
+
+    def dep(ev, call, a, kw):
+        log["departure_args"] = (a, kw)
+        return Mat([list(r) for r in departure])
+
+    def bio(ev, call, a, kw):
+        log["bio_args"] = [x if not isinstance(x, list) else list(x) for x in a]
+        dep_c, mat, n_, nb, dst = a
+        for i, row in enumerate(final):
+            for j, v in enumerate(row):
+                dep_c[i * n + j] = v
+        target = dst.vals if isinstance(dst, Vec) else dst
+        for i, s in enumerate(scores):
+            target[i] = s
+        return None
+
+    def pcm(ev, call, a, kw):
+        log["pcm_args"] = (a, kw)
+        return Obj("COSTS", methods={"flatten": lambda ev2, c2, a2, k2: Sym("C")})
+
+    me = Obj("SELF", {"_starting_algorithms": []},
+             {"_departure_rankings": dep, "_bio_consert": bio, "pairwise_cost_matrix": pcm,
+              "get_full_name": lambda ev, call, a, kw: "NAME"})
+    funcs = np_funcs(mod)
+    base_zeros = funcs.get("zeros")
+
+    def zeros(ev, call):
+        v = base_zeros(ev, call)
+        return Vec(v) if isinstance(v, list) else v       # 1-D arrays support `arr == scalar` masks
+    if base_zeros is not None:
+        for local, target in mod.imports.items():
+            if target == "numpy.zeros":
+                funcs[local] = zeros
+    captured: Dict[str, Any] = {}
+
+    def consensus(ev, call):
+        names = ["consensus_rankings", "dataset", "scoring_scheme", "att"]
+        kw = {k.arg: ev.ev(k.value) for k in call.keywords}
+        for i, a in enumerate(call.args):
+            kw[names[i]] = ev.ev(a)
+        captured.update(kw)
+        return "CONSENSUS"
+    funcs["Consensus"] = consensus
+    funcs["Ranking"] = lambda ev, call: ("Ranking", ev.ev(call.args[0]))
+
+    def reshape(ev, call):
+        base = ev.ev(call.func.value)
+        args = [ev.ev(a) for a in call.args]
+        if isinstance(base, list) and len(args) == 2 and args[0] == -1 and isinstance(args[1], int) and args[1] > 0 \
+                and len(base) % args[1] == 0:
+            return Mat([base[i:i + args[1]] for i in range(0, len(base), args[1])])
+        raise Unsupported("reshape", call)
+    funcs[".reshape"] = reshape
+    evl = Evaluator({}, funcs)
+    evl.attr_fallback = lambda d: d if d.startswith("ConsensusFeature.") else None
+    try:
+        ret = evl.call_user(f.node, [me, ds, Sym("SCHEME"), at_most_one])
+    except Unsupported as exc:
+        raise AnalysisError(f"{f.qualname}: unsupported construct at line {getattr(exc.node, 'lineno', '?')}: {exc}")
+    return ret, captured, log, ds
